@@ -6,3 +6,4 @@ cd "$(dirname "$0")"
 mkdir -p bin evidence
 cd checker
 go build -o ../bin/j5check ./cmd/j5check
+go build -o ../bin/stress ./cmd/stress
